@@ -1,3 +1,4 @@
+import GitSizer.Proofs.GraphRun7
 import GitSizer.Proofs.GraphTrees
 import GitSizer.Proofs.History
 /-! # C04 — Checkout metrics equal the recursive expansion of the worst tree
@@ -56,5 +57,24 @@ theorem expansion_unfold (r : Repo) (wf : ∀ t e, e ∈ treeKids r t → e.2 < 
 def demo : Repo := [.blob 10, .tree 60 [⟨0o100644, [97], 0⟩, ⟨0o100644, [98, 98], 0⟩],
                     .tree 60 [⟨0o40000, [120], 1⟩, ⟨0o40000, [121], 1⟩]]
 example : Agg.expand (PN demo) 2 = ⟨2, 4, 3, 4, 40, 0, 0⟩ := by decide +kernel
+
+
+/-- **Whole-run checkout maxima.** After any valid run each of the seven biggest-checkout figures
+    is the (saturated) maximum, taken independently per figure over ALL delivered trees, of that
+    figure of the tree's true recursive expansion (`Agg.expand (PN r)`, unbounded `Nat`). -/
+theorem checkout_maxima_exact (r : Repo) (ops : List Op) (v : ValidRun r ops) :
+    ∃ st, runOps r ops {} = .ok st ∧
+      st.hist.MaxPathDepth.toNat = min (maxList ((treesOf ops).map fun t => (Agg.expand (PN r) t).depth)) (2^32 - 1) ∧
+      st.hist.MaxPathLength.toNat = min (maxList ((treesOf ops).map fun t => (Agg.expand (PN r) t).len)) (2^32 - 1) ∧
+      st.hist.MaxExpandedTreeCount.toNat = min (maxList ((treesOf ops).map fun t => (Agg.expand (PN r) t).trees)) (2^32 - 1) ∧
+      st.hist.MaxExpandedBlobCount.toNat = min (maxList ((treesOf ops).map fun t => (Agg.expand (PN r) t).blobs)) (2^32 - 1) ∧
+      st.hist.MaxExpandedBlobSize.toNat = min (maxList ((treesOf ops).map fun t => (Agg.expand (PN r) t).bsize)) (2^64 - 1) ∧
+      st.hist.MaxExpandedLinkCount.toNat = min (maxList ((treesOf ops).map fun t => (Agg.expand (PN r) t).links)) (2^32 - 1) ∧
+      st.hist.MaxExpandedSubmoduleCount.toNat = min (maxList ((treesOf ops).map fun t => (Agg.expand (PN r) t).subs)) (2^32 - 1) := by
+  obtain ⟨st, h, _, res⟩ := v.result
+  have t := res.trees
+  simp only [treeNums, List.cons.injEq, and_true] at t
+  exact ⟨st, h, t.2.2.2.2.1, t.2.2.2.2.2.1, t.2.2.2.2.2.2.1, t.2.2.2.2.2.2.2.1, t.2.2.2.2.2.2.2.2.1,
+    t.2.2.2.2.2.2.2.2.2.1, t.2.2.2.2.2.2.2.2.2.2⟩
 
 end GitSizer.C04
